@@ -86,12 +86,11 @@ def callerPoolMutated (o : SslOpts) : Bool :=
   | some c => c.hasRootCAs && o.ca = .valid
   | none => false
 
-/-- `tlsConfig.Certificates = append(tlsConfig.Certificates, mycert)` on the clone: `Clone()` copies the slice
-    header, so when the caller's slice has spare capacity the new element is stored in the caller's backing array
-    (beyond the caller's `len`). -/
-def callerBackingWritten (o : SslOpts) (spareCap : Bool) : Bool :=
-  o.cfg.isSome && spareCap && (o.cert ≠ .absent || o.key ≠ .absent) &&
-    (match setupTLSConfig o with | .ok _ => true | .error _ => false)
+/-- `tlsConfig.Certificates = append(tlsConfig.Certificates[:len:len], mycert)` on the clone (repair of KF-C20-2): `Clone()`
+    copies the slice header, but the full slice expression caps the capacity at the length, so `append` always
+    allocates a new backing array — nothing is stored in the caller's, whatever its spare capacity.  (Before the
+    repair the new element was written into the caller's backing array whenever it had spare capacity.) -/
+def callerBackingWritten (_o : SslOpts) (_spareCap : Bool) : Bool := false
 
 /-! ### the documented table (doc.go "Transport layer security", conn.go SslOptions comment,
     and the comment at the top of setupTLSConfig — the three copies have the same six rows) -/
